@@ -25,7 +25,7 @@ from .core import InfraError
 # property -> suites that exercise it (module names under harness/suites)
 PROPS = {
     'C01': ['dispatch'],
-    'C02': ['dispatch'],
+    'C02': ['dispatch', 'asyncsched'],
     'C03': ['dispatch'],
     'C04': ['bind'],
     'C11': ['dispatch', 'asyncsched', 'registry', 'client', 'loopback'],
@@ -71,6 +71,16 @@ def run_impl_all(suite_name, cases, jobs):
     return [o for chunk in outs for o in chunk]
 
 
+def _agree(s, prop, c, pm, pi):
+    """model projection vs implementation projection; a suite may supply its own comparison (`agree`) where the
+    property does not constrain one side's behaviour (e.g. C05 says nothing about inputs that are refused)"""
+    if hasattr(s, 'agree'):
+        r = s.agree(prop, c, pm, pi)
+        if r is not None:
+            return r
+    return core.matches(core.canon(pm), core.canon(pi))
+
+
 def write_replay(prop, n, payload):
     core.REPLAYS.mkdir(exist_ok=True)
     p = core.REPLAYS / f'{prop}-{n}.json'
@@ -90,7 +100,7 @@ def replay(prop, path):
     model = core.run_driver([s.model_case(case, out) if hasattr(s, 'model_case') else case])[0]
     fs = s.oracle(prop, case, out)
     pm, pi = s.project(prop, case, model), s.project(prop, case, out)
-    diff = pm is not None and not core.matches(core.canon(pm), core.canon(pi))
+    diff = pm is not None and not _agree(s, prop, case, pm, pi)
     print(json.dumps({'case': case, 'implementation': out, 'model': model, 'oracle': [f.to_json() for f in fs],
                       'correspondence_differs': diff}, indent=1, default=str))
     if fs or diff:
@@ -187,7 +197,7 @@ def run_check(prop, tier, seed, jobs, t0, build=True):
             region = s.region(prop, c) if hasattr(s, 'region') else None
             if region is None:
                 pi = s.project(prop, c, io)
-                if not core.matches(core.canon(pm), core.canon(pi)):
+                if not _agree(s, prop, c, pm, pi):
                     diffs.append({'suite': suite_name, 'case': c, 'model': pm, 'implementation': pi})
             findings += s.oracle(prop, c, io)
         per_suite[suite_name] = n_rel
